@@ -221,30 +221,27 @@ fn gen_arith_expr(ctx: &mut Context, t: &mut Tape, depth: u32, counter: &mut u32
             return e;
         }
         let by = w - we;
-        match t.weighted(&[8, 8, 1, 1]) {
+        match t.weighted(&[8, 8, 2]) {
             0 => ctx.zero_extend(e, by),
             1 => ctx.sign_extend(e, by),
-            2 if by >= 2 => {
-                // nested same-kind extension
-                let k = t.range(1, by - 1);
-                if t.flag() {
-                    let i = ctx.zero_extend(e, k);
-                    ctx.zero_extend(i, by - k)
-                } else {
-                    let i = ctx.sign_extend(e, k);
-                    ctx.sign_extend(i, by - k)
+            _ if by >= 2 => {
+                // a chain of 2-4 nested extensions of random kinds (same-kind and mixed)
+                let links = t.range(2, by.min(4));
+                let mut left = by;
+                let mut cur = e;
+                let mut kinds = vec![];
+                for l in 0..links {
+                    let remaining_links = links - l - 1;
+                    let k = if remaining_links == 0 { left } else { t.range(1, left - remaining_links) };
+                    left -= k;
+                    let signed = t.flag();
+                    kinds.push(signed);
+                    cur = if signed { ctx.sign_extend(cur, k) } else { ctx.zero_extend(cur, k) };
                 }
-            }
-            3 if by >= 2 => {
-                *mixed = true;
-                let k = t.range(1, by - 1);
-                if t.flag() {
-                    let i = ctx.zero_extend(e, k);
-                    ctx.sign_extend(i, by - k)
-                } else {
-                    let i = ctx.sign_extend(e, k);
-                    ctx.zero_extend(i, by - k)
+                if kinds.iter().any(|k| *k != kinds[0]) {
+                    *mixed = true;
                 }
+                cur
             }
             _ => ctx.zero_extend(e, by),
         }
@@ -270,7 +267,7 @@ impl Prop for C19 {
         Some("tape")
     }
     fn rule(&self) -> String {
-        "(i) every rule of create_rewrites(): all assignments of its width parameters in 1..=5 (quick) / 1..=7 (thorough) x both values of every sign parameter (exhaustive), plus condition-directed samples with widths up to 48 (base parameters drawn small, then each condition parameter is scanned over its domain and a satisfying value is chosen, so every sample satisfies eval_condition); patterns are instantiated by the harness and lowered with from_arith; where the side condition holds both sides must have width wo, type-check, and agree under ALL operand values when they total <= 12 bits (16 in the thorough tier), else under 4096 corner-biased samples (reference evaluator). (ii) expressions of the convertible fragment (add/sub/mul/shl/lshr/ashr over symbols or nested operations under zero/sign extension, nested same-kind and mixed extensions with low weight): from_arith(to_arith(e)) has the same width and is reference-evaluator-equal. Non-trivial: (i) instantiation with condition true and not all width parameters equal, (ii) expression with >= 2 operators and >= 1 sign extension; distinct by hash.".into()
+        "(i) every rule of create_rewrites(): all assignments of its width parameters in 1..=5 (quick) / 1..=7 (thorough) x both values of every sign parameter (exhaustive), plus condition-directed samples with widths up to 48 (base parameters drawn small, then each condition parameter is scanned over its domain and a satisfying value is chosen, so every sample satisfies eval_condition); patterns are instantiated by the harness and lowered with from_arith; where the side condition holds both sides must have width wo, type-check, and agree under ALL operand values when they total <= 12 bits (16 in the thorough tier), else under 4096 corner-biased samples (reference evaluator). (ii) expressions of the convertible fragment (add/sub/mul/shl/lshr/ashr over symbols or nested operations under zero/sign extension, chains of 2-4 nested same-kind and mixed extensions with low weight): from_arith(to_arith(e)) has the same width and is reference-evaluator-equal. Non-trivial: (i) instantiation with condition true and not all width parameters equal, (ii) expression with >= 2 operators and >= 1 sign extension; distinct by hash.".into()
     }
     fn budget(&self, tier: Tier) -> Budget {
         match tier {
